@@ -136,21 +136,21 @@ def run_case(case):
         if gapped:
             occ = runner.to_np(runner.get_at(res, "occupation", t)).astype(float)
             eocc = R.occupation(v[:, 0], n)
-            if np.abs(occ - eocc).max() > 2e-2:
+            if not np.abs(occ - eocc).max() <= 2e-2:  # NaN fails
                 return result(False, sig=f"occupation|{'perm' if case['perm'] else 'plain'}", msg=f"{label}: occupation {np.round(occ, 4).tolist()} at t={t}, ground state has {np.round(eocc, 4).tolist()}", outcome="occ")
     if with_state:
         st = runner.get_at(res, "state", 1.0)
         from mc.ref.mps_dense import mps_to_vec
 
         vec = mps_to_vec(st.factors)
-        if abs(np.linalg.norm(vec) - 1) > 1e-8:
+        if not abs(np.linalg.norm(vec) - 1) <= 1e-8:  # NaN fails
             return result(False, sig="state-norm", msg=f"{label}: returned state has norm {np.linalg.norm(vec)}", outcome="norm")
         if st.orthogonality_center != 0:
             return result(False, sig="state-centre", msg=f"{label}: returned state declares centre {st.orthogonality_center}", outcome="centre")
         for i, f in enumerate(st.factors[1:], start=1):
             a = f.detach().numpy().reshape(f.shape[0], -1)
             g = a @ a.conj().T
-            if np.abs(g - np.eye(g.shape[0])).max() > 1e-9:
+            if not np.abs(g - np.eye(g.shape[0])).max() <= 1e-9:  # NaN fails
                 return result(False, sig="state-canonical", msg=f"{label}: tensor {i} of the returned state is not right-orthonormal", outcome="canon")
         if case["cap"] and max(f.shape[2] for f in st.factors[:-1]) > case["cap"]:
             return result(False, sig="bond-cap", msg=f"{label}: bond dimension exceeds max_bond_dim", outcome="cap")
